@@ -18,7 +18,7 @@ elab "#audit_tjd" : command => do
         let m := mods[idx.toNat]!
         if (`TjdProps).isPrefixOf m then
           let s := n.toString
-          if !(s.splitOn "_proof_").length > 1 && !(s.splitOn "_simp_").length > 1
+          if !(isStructure env n.getPrefix) && !(s.splitOn "_proof_").length > 1 && !(s.splitOn "_simp_").length > 1
               && !(s.splitOn "._").length > 1 && !(s.splitOn ".eq_").length > 1
               && !(s.splitOn "match_").length > 1 then
             let axs ← liftCoreM (collectAxioms n)
